@@ -24,6 +24,9 @@ CLAIMS = {
  'C12': dict(engine='ALG+PATH', technique='decision-tree abstract interpretation over exact real terms (path conditions = ordered/unordered float comparisons); clamp-leaf rule, guard truth-table rule, algebraic identity between the positional and incremental forms, def-use rule for zero(); effect-set summary for the fuzzy gain scheduler',
    cat='other', text='for all 13 step functions (plain, single-neuron, fuzzy; internal and public entry points) every path returns and stores outmin, outmax or a value guarded by outmin < v < outmax (NaN-safe where a division can produce NaN), for all gains/limits/states/inputs; the positional integrator moves exactly under the documented condition with increment ki*err; outputs and caches equal the documented difference equations and the two modes coincide algebraically; zero() clears every step-carried field',
    note=TRUST + ', sympy; IEEE operations read as exact real operations; NOT decided: finiteness of the state over unbounded histories (needs numeric reasoning) and the single-neuron learning equations (not fixed by the property); a_pid_fuzzy_out_ is summarised as "may change pid.kp/ki/kd only", justified by the effect-set rule D1s under the assumption that scratch buffers and rule tables do not overlap the controller object and the operator callback is pure'),
+ 'C16': dict(engine='ALG+AFF-lite', technique='abstract interpretation over exact real terms for the filter updates and generators (2*pi read from the checked constant table); loop-body state transformers for the two accumulation loops; call-order/argument rule for the delay-line pushes; effect rule for the block moves and zeroing',
+   cat='other', text='lpf/hpf updates, init and zero equal the documented recurrences for all states/inputs (convex-combination and decay clauses as coefficient identities); both generators equal the documented formulas and are ratios with positive coefficients (strictly inside (0,1) for positive fc, ts in real arithmetic), macro twins fold to the same value; a_tf_iter is shown to be push_fore(input); y = sum num[i]*input[i] - sum den[i]*output[i] over exactly num_n/den_n terms; push_fore(output, y); return y, with a_real_push_fore the one-cell shift towards higher indices; zero/setters clear exactly the stated cells',
+   note=TRUST + ', sympy; IEEE operations read as exact real operations: saturation of the generators under extreme fc*ts rounding is not decided; arrays and ctx assumed not to overlap; linearity/time-invariance follow from the verified sum form (not separately checked)'),
 }
 
 NA = {
@@ -56,7 +59,7 @@ def main():
                   'baseline_off_cmd': 'ctest --test-dir /repo/_build -j8 --timeout 900', 'source_commits': [], 'add_only': True},
         'engines': [
             {'name': 'irx+llir', 'path': 'lib/irx.py, lib/llir.py', 'serves_properties': sorted(CLAIMS), 'kind_free_text': 'clang/opt IR pipeline and IR reader (CFG, dominators, loops, def-use)'},
-            {'name': 'ALG', 'path': 'lib/symx.py, lib/alg.py', 'serves_properties': ['C12', 'C15', 'C17', 'C19'], 'kind_free_text': 'abstract interpreter over exact algebraic values with trace partitioning'},
+            {'name': 'ALG', 'path': 'lib/symx.py, lib/alg.py', 'serves_properties': ['C12', 'C15', 'C16', 'C17', 'C19'], 'kind_free_text': 'abstract interpreter over exact algebraic values with trace partitioning'},
             {'name': 'BIT', 'path': 'lib/bit.py, lib/looptx.py', 'serves_properties': ['C17', 'C18', 'C19'], 'kind_free_text': 'GF(2) algebraic-normal-form bit vectors; loop-body state transformers'},
             {'name': 'ABI', 'path': 'props/C20.py, lib/dwarf.py, lib/rustsrc.py', 'serves_properties': ['C20'], 'kind_free_text': 'declaration and layout agreement'},
         ],
